@@ -212,6 +212,20 @@ def scalar_forms(k):
     F.append(('asg_in_logor', '(r = b) || (r2 = a);'))
     F.append(('asg_in_not', '!(r = a);'))
     # discard sites
+    if k != 'ptr':
+        # a value is discarded WHILE another operand of the same type is live (for long double: on the x87 register stack): the
+        # left operand of a comma, a (void) cast, an expression statement inside a statement expression and the increment of a
+        # for loop, each inside the right operand of a binary operator / a comparison / a call argument list
+        call = f'f_{k}(a, b)'
+        F.append(('live_comma', f'r = a + ({call}, b);'))
+        F.append(('live_comma_lhs', f'r = (b, a) + ({call}, a, b);'))
+        F.append(('live_stmtexpr', f'r = a * ({{ {call}; b; }});'))
+        F.append(('live_castvoid_cond', f'r = a - (b ? ((void){call}, b) : b);'))
+        F.append(('live_cmp', f'r2 = a < ({call}, b); r = r2;'))
+        F.append(('live_for_inc', f'r = a + ({{ {t} z = b; for (int j = 0; j < 2; j++, z) ; z; }});'))
+        F.append(('live_for_inc_call', f'r = b + ({{ {t} z = a; for (int j = 0; j < 3; {call}, j++) z = b; z; }});'))
+        F.append(('live_arg', f'r = f_{k}(a, ({call}, b)) + (a, b);'))
+        F.append(('live_nested', f'r = a + (b + (({call}, a) + ((void)b, ({{ a; b; }}))));'))
     F.append(('for_inc', 'for (int j = 0; j < 2; j++, a) r = a;'))
     F.append(('for_inc_call', f'for (int j = 0; j < 2; {"f_" + k + "(a, b)" if k != "ptr" else "a + 1"}, j++) r = a;'))
     # statements
